@@ -19,6 +19,7 @@ from ..gen import c18translate as TR
 from ..gen import c18vtranslate as TRV
 from ..gen import c18htranslate as TRH
 from ..gen import c18stranslate as TRS
+from ..gen import c18ltranslate as TRL          # registers its sites in TRS.EXTRA_SITES
 
 PID = "C18"
 TITLE = "Surface frame fields are unit, border-aligned and topologically consistent"
@@ -63,6 +64,11 @@ REQUIRED_THEOREMS = [
     "bridge_flag_vertices_edge_rot", "bridge_flag_vertices_singuls", "source_flag_vertices_dict_is_rotD", "source_flag_vertices_face_angle",
     "source_flag_vertices_flag_is_sign", "source_flag_vertices_independent_of_history",
     "source_flag_faces_holonomy_refines", "source_flag_faces_index_total",
+    # round 6: operator assembly, connection, export_as_mesh as whole bodies
+    "bridge_laplacian_vertices", "source_laplacian_vertices_hermitian", "bridge_laplacian_triangles", "source_laplacian_triangles_hermitian",
+    "source_connection_faces_basis_on_feature", "source_connection_faces_basis_plain", "bridge_connection_faces_transport",
+    "source_connection_faces_transport_antisymmetric", "source_connection_vertices_ring",
+    "source_export_faces_edges_in_range", "source_export_vertices_edges_in_range",
 ]
 TRUSTED = [
     "Lean 4.33.0 kernel; axioms ⊆ {propext, Classical.choice, Quot.sound}",
@@ -86,6 +92,8 @@ TRUSTED = [
     "translator vlib/gen/c18stranslate.py (round 4: method BODIES read statement by statement -> Generated/C18Src.lean: base.normalize / run / "
     "_check_init, faces2d initialize / _initialize_variables / optimize / flag_singularities, vertex2d initialize / optimize); the numeric "
     "primitives abs / spsolve / factorized / inverse_power_method are parameters (FFS.Num) whose contracts are hypotheses of the theorems",
+    "translator vlib/gen/c18ltranslate.py (round 6: laplacian, laplacian_triangles, SurfaceConnectionFaces/Vertices._initialize, export_as_mesh x2 -> Generated/C18Src.lean); "
+    "`U x` = cmath.rect(1, 2 pi x), atan2 angles, cot values, corner angles and geom.face_basis are parameters fed by the harness / hypotheses of the theorems",
 ]
 ASSUMPTIONS = [
     "history clauses (round 3): a second run() / flag_singularities() on the same object, a field computed on a mesh that already carried "
@@ -136,7 +144,7 @@ SOURCE_MAP = {
     _FF + "faces2d.py::_BaseFrameField2DFaces._initialize_variables": "translated: imperative (C18S.initVariablesFaces; bridge_init_variables_faces)",
     _FF + "faces2d.py::_BaseFrameField2DFaces._compute_attach_weight": "translated: fragments (filter threshold, fail value, abs(min); bridge_attach_weight)",
     _FF + "faces2d.py::_BaseFrameField2DFaces.flag_singularities": "translated: imperative (C18S.flagEdgeRotFaces / flagSingulsFaces; bridge_flag_faces_edge_rot, bridge_flag_faces_singuls)",
-    _FF + "faces2d.py::_BaseFrameField2DFaces.export_as_mesh": "out-of-scope: visualisation export, not an observable of the property",
+    _FF + "faces2d.py::_BaseFrameField2DFaces.export_as_mesh": "translated: imperative (index structure of the exported poly-line: C18S.exportFacesEdges / VerticesPer; source_export_faces_edges_in_range); geometry of the tips not modelled; not an observable of the property",
     _FF + "faces2d.py::FrameField2DFaces.__init__": "oracle-only",
     _FF + "faces2d.py::FrameField2DFaces.initialize": "translated: imperative (C18S.initializeFaces; bridge_initialize_faces)",
     _FF + "faces2d.py::FrameField2DFaces.optimize": "translated: imperative (C18S.optimizeFaces; bridge_optimize_faces)",
@@ -149,7 +157,7 @@ SOURCE_MAP = {
     _FF + "vertex2d.py::_BaseFrameField2DVertices._initialize_variables": "translated: imperative (C18S.initVariablesVerts, whole body; bridge_init_variables_vertices to FFV.initVertsFull under the contract of abs)",
     _FF + "vertex2d.py::_BaseFrameField2DVertices._compute_attach_weight": "translated: fragments (same constants as the face-based one; bridge_attach_weight)",
     _FF + "vertex2d.py::_BaseFrameField2DVertices.flag_singularities": "translated: imperative (C18S.flagEdgeRotVerts / flagSingulsVerts, whole body; bridge_flag_vertices_edge_rot, bridge_flag_vertices_singuls, source_flag_vertices_dict_is_rotD)",
-    _FF + "vertex2d.py::_BaseFrameField2DVertices.export_as_mesh": "out-of-scope: visualisation export, not an observable of the property",
+    _FF + "vertex2d.py::_BaseFrameField2DVertices.export_as_mesh": "translated: imperative (index structure, both repr_vector branches: C18S.exportVertsEdges / VerticesPer; source_export_vertices_edges_in_range); geometry not modelled; not an observable of the property",
     _FF + "vertex2d.py::FrameField2DVertices.__init__": "oracle-only",
     _FF + "vertex2d.py::FrameField2DVertices.initialize": "translated: imperative (C18S.initializeVerts; bridge_initialize_vertices)",
     _FF + "vertex2d.py::FrameField2DVertices._modify_parallel_transport": "out-of-scope: cad_correction (OSQP-modified transport) is outside the quantifier",
@@ -166,14 +174,14 @@ SOURCE_MAP = {
     "mouette/processing/connection.py::SurfaceConnection.bY": "oracle-only",
     "mouette/processing/connection.py::SurfaceConnection.project": "oracle-only",
     "mouette/processing/connection.py::SurfaceConnectionVertices.__init__": "oracle-only",
-    "mouette/processing/connection.py::SurfaceConnectionVertices._initialize": "translated: fragments (dfct, feature / interior rescaling; bridge_connection_formulas); ring traversal oracle-only",
+    "mouette/processing/connection.py::SurfaceConnectionVertices._initialize": "translated: imperative (C18S.connVertsFirst / connVertsRingFeature / connVertsRingInterior / connVertsTransport, whole body; source_connection_vertices_ring; formulas bridge_connection_formulas); the 3-D basis vectors themselves are oracle-only",
     "mouette/processing/connection.py::FlatConnectionVertices.__init__": "oracle-only",
     "mouette/processing/connection.py::FlatConnectionVertices._initialize": "oracle-only",
     "mouette/processing/connection.py::FlatConnectionVertices.transport": "oracle-only",
     "mouette/processing/connection.py::FlatConnectionVertices.base": "oracle-only",
     "mouette/processing/connection.py::FlatConnectionVertices.project": "oracle-only",
     "mouette/processing/connection.py::SurfaceConnectionFaces.__init__": "oracle-only",
-    "mouette/processing/connection.py::SurfaceConnectionFaces._initialize": "translated: fragments (the two face transports; bridge_connection_formulas); basis construction oracle-only",
+    "mouette/processing/connection.py::SurfaceConnectionFaces._initialize": "translated: imperative (C18S.connFacesTriple / connFacesTransport, whole body; source_connection_faces_basis_on_feature, bridge_connection_faces_transport); geom.face_basis itself is oracle-only",
     "mouette/processing/connection.py::FlatConnectionFaces.__init__": "oracle-only",
     "mouette/processing/connection.py::FlatConnectionFaces._initialize": "oracle-only",
     "mouette/processing/connection.py::FlatConnectionFaces.transport": "oracle-only",
@@ -184,9 +192,9 @@ SOURCE_MAP = {
     # ---- laplacian_op.py
     "mouette/operators/laplacian_op.py::graph_laplacian": "out-of-scope: not used by the surface frame fields",
     "mouette/operators/laplacian_op.py::graph_laplacian.add": "out-of-scope: not used by the surface frame fields",
-    "mouette/operators/laplacian_op.py::laplacian": "modelled: assembly (FF.entryVert / coeff) by hand, compared coefficient by coefficient; the two phases are translated fragments (laplacian_vertex_phases_sum)",
+    "mouette/operators/laplacian_op.py::laplacian": "translated: imperative (C18S.laplacianTriplets: every triplet in fill order; bridge_laplacian_vertices to FF.entryVert / coeff; source_laplacian_vertices_hermitian)",
     "mouette/operators/laplacian_op.py::cotan_edge_diagonal": "oracle-only",
-    "mouette/operators/laplacian_op.py::laplacian_triangles": "modelled: assembly (FF.entryFace / coeff) by hand, compared coefficient by coefficient; the phase is a translated fragment (laplacian_faces_phase)",
+    "mouette/operators/laplacian_op.py::laplacian_triangles": "translated: imperative (C18S.nablaRows / nablaRowWeight: rows of Nabla, returned product; bridge_laplacian_triangles to FF.entryFace / coeff; source_laplacian_triangles_hermitian)",
     "mouette/operators/laplacian_op.py::laplacian_edges": "out-of-scope: not used by the surface frame fields",
     "mouette/operators/laplacian_op.py::volume_laplacian": "out-of-scope: volumes",
     "mouette/operators/laplacian_op.py::laplacian_tetrahedra": "out-of-scope: volumes",
@@ -1492,7 +1500,13 @@ MANIFEST = {
                    "Round 5: the vertex-based _initialize_variables (both branches, cancellation guards, feature normalisation) and flag_singularities (dict of "
                    "directed rotations, edge attribute, face loop) are translated as whole bodies and bridged to FFV.initVertsFull / edgeRotV / rotD (the dict read "
                    "equals rotD on a well-formed edge list); the adjacency-form holonomy sum of the face-based flag_singularities is proved equal to the edge-list "
-                   "vertexAngle given the vertex_to_edges contract (a permutation of the incident edges), so the telescoping / 4*chi theorems apply to the sums the source stores."),
+                   "vertexAngle given the vertex_to_edges contract (a permutation of the incident edges), so the telescoping / 4*chi theorems apply to the sums the source stores. "
+                   "Round 6: operators.laplacian (every (row, col, coeff) triplet in fill order) and laplacian_triangles (rows of Nabla, returned product) are translated "
+                   "as whole bodies and proved equal, coefficient by coefficient, to the round-1 assembly (entryVert / entryFace), hence Hermitian at source level (vertices: "
+                   "given only U(-x) = conj U(x) and period 1 of U = exp(2 pi i x)); SurfaceConnectionFaces._initialize (the triple handed to face_basis starts on a feature "
+                   "side whenever the face has one; the transport dict is antisymmetric on a well-formed dual edge list), SurfaceConnectionVertices._initialize (ring loops: "
+                   "first neighbour at the entering running sum, second at the rescaled first corner angle) and the index structure of export_as_mesh (every edge joins two of "
+                   "the (order+1) n exported vertices) are translated and bridged too."),
     "level_note": ("Trusted: Lean kernel + propext/Classical.choice/Quot.sound; the ast translator for 4 constant sites; the hand-written "
                    "model, tied to the code by feeding it the implementation's own per-edge transports / weights / phases / solver output "
                    "and comparing assembled matrix, partition, constraints, normalised field, edge rotations and vertex sums at 1e-9; "
